@@ -13,8 +13,8 @@ func (p *Parser) withStateStore() bool { return p.Has["InitState"] }
 // history has the same alignment keys; it returns nil when the model does not
 // apply or does not agree about matching (an unclaimed divergence).
 func alignedModel(p *Parser, c *Call, r *CallResult) (*Model, int) {
-	if c.Opts.MaxExpr != 0 || c.Opts.AllowInvalidUTF8 {
-		return nil, -1
+	if (c.Opts.MaxExpr != 0 && c.Opts.MaxExpr < 1<<30) || c.Opts.AllowInvalidUTF8 {
+		return nil, -1 // (the model knows no budgets; one that cannot run out is no budget)
 	}
 	if c.Opts.Memoize && contains(p.Flags, "-support-left-recursion") {
 		return nil, -1 // the model's memo does not cover the interplay with seed growing
